@@ -983,3 +983,49 @@ func ruleOneCriticalSection(c *Ctx, rule string) {
 		c.ob(rule, fn, "cacheLock is released only at function exit", nil, nRel == 0, fmt.Sprintf("%d explicit Unlock/RUnlock of cacheLock inside the mutator (the table lookup, the store write and the memory update must not be separated)", nRel))
 	}
 }
+
+// C10.R5 / C05.R10 — UpdateAttr persists on every successful return (node and uid recorded for an ip are what the
+// last successful bind said; a shortcut that skips the write leaves a stale node for the next unassign).
+func ruleUpdateAttrAlwaysWrites(c *Ctx, rule string) {
+	fn := c.MustFn(rule, fipPkg, "(*crdIpam).UpdateAttr")
+	if fn == nil {
+		return
+	}
+	up := calls(fn, "(*crdIpam).updateFloatingIP")
+	ei := errResultIndex(fn)
+	r := reachFromEntry(fn, newCut().callInstrs(up))
+	ok, n := len(up) == 1, 0
+	for _, ret := range returns(fn) {
+		if k, isC := retVal(ret, ei).(*ssa.Const); isC && k.IsNil() {
+			n++
+			if r.has(ret) {
+				ok = false
+			}
+		}
+	}
+	c.ob(rule, fn, "every successful UpdateAttr wrote the store", nil, ok && n > 0, "each `return nil` is preceded by updateFloatingIP on every path (no skip-if-unchanged shortcut: node name and uid are compared by nobody else)")
+	// and the attributes written are the caller's
+	for _, u := range up {
+		cw, _ := callOf(callArgs(u)[0])
+		okA := cw != nil && nameMatch(calleeName(cw), "(*FloatingIP).CloneWith")
+		if okA {
+			a := cw.Call.Args[2]
+			okA = dependsOn(a, func(x ssa.Value) bool { return sameParam(x, fn.Params[3]) }) || unspillAddrOfParam(a, fn.Params[3])
+		}
+		c.ob(rule, fn, "the stored attributes are the caller's attr", u, okA, "updateFloatingIP(v.CloneWith(v.Key, &attr, ..)) with the attr parameter")
+	}
+}
+
+// unspillAddrOfParam: v is the address of the cell a by-value parameter was spilled into.
+func unspillAddrOfParam(v ssa.Value, p *ssa.Parameter) bool {
+	a, ok := v.(*ssa.Alloc)
+	if !ok {
+		return false
+	}
+	for _, ref := range *a.Referrers() {
+		if st, ok := ref.(*ssa.Store); ok && st.Addr == ssa.Value(a) && st.Val == ssa.Value(p) {
+			return true
+		}
+	}
+	return false
+}
